@@ -805,7 +805,14 @@ impl Sim {
                             }),
                             Some(_) => {}
                             None => {
-                                if let Some((other, _)) = cid_of.iter().find(|(o, v)| **o != it.producer && *v == c) {
+                                // sharing a tag is a violation only between requestors that are connected at
+                                // the same time (re-using the tag of a requestor that has left is not forbidden
+                                // by the statement; misrouting that results from it is caught on the reply leg)
+                                let concurrent = |o: usize| {
+                                    let st = w.peers[o].stream.as_ref().unwrap();
+                                    st.end_seen.map_or(true, |e| e > *t) && w.peers[o].sink.as_ref().unwrap().healthy()
+                                };
+                                if let Some((other, _)) = cid_of.iter().find(|(o, v)| **o != it.producer && *v == c && concurrent(**o)) {
                                     self.findings.push(Finding {
                                         class: "routing",
                                         sig: "reqrep/origin-tag-shared".into(),
@@ -898,7 +905,12 @@ impl Sim {
                     continue;
                 }
                 let recv = got.get(uid).cloned().unwrap_or_default();
-                let target = it.cid.as_ref().and_then(|c| req_by_cid.get(c)).copied();
+                // the requestor whose request this reply answers (the scripted replier echoes the tag of
+                // that very request); the tag→requestor map is only the fallback
+                let target = match it.answers {
+                    Some(req_uid) if it.cid.is_some() => Some(w.items[req_uid].producer),
+                    _ => it.cid.as_ref().and_then(|c| req_by_cid.get(c)).copied(),
+                };
                 match target {
                     Some(q) if it.class == "reply" => {
                         for (who, _) in recv.iter().filter(|(who, _)| *who != q) {
